@@ -115,6 +115,26 @@ def many_heads_world(g, r):
     return {"kind": "manyheads", "lines": lines, "k": nclients, "pairs": [(p, q) for p in group for q in group if p != q]}
 
 
+def regraph_world(g, r):
+    """client 2 (X) copies the publisher's graph, computes its hello head, REMOVES the graph and fetches it again — in the same
+    number of transactions — from client 1 (Q), which is behind the publisher (client 0); then the hello decisions are taken."""
+    lines = ["world 4", "init 0 %d 8" % g.nn()]
+    g.acts(lines, 0, r.choice([1, 2, 5]), prio=0)
+    two_heads = r.chance(1, 2)
+    if two_heads:
+        lines.append("feed 3 0")
+        g.acts(lines, 3, 1)
+    lines.append("feed 1 0")                                   # Q: behind
+    g.acts(lines, 0, r.choice([1, 2, 4]), prio=0)
+    if two_heads:
+        lines.append("feed 0 3")                              # publisher: two lazily merged heads
+        lines.append("feed 1 3")
+    lines += ["feed 2 0", "warm 2", "hello 0 2", "remove 2", "feed 2 1"]
+    if r.chance(1, 2):
+        lines.append("warm 2")
+    return {"kind": "regraph", "lines": lines, "k": 4, "pairs": [(p, q) for p in range(3) for q in range(3) if p != q]}
+
+
 def add_queries(r, case):
     """dumps of every client, then hello between all ordered pairs"""
     k = case["k"]
@@ -136,6 +156,7 @@ def run(ctx):
     n = 220 if ctx.thorough else 22
     cases = [f13_world(g)] + [hello_world(g, r) for _ in range(n)] + [wide_world(g, r) for _ in range(max(3, n // 6))]
     cases += [many_heads_world(g, r) for _ in range(12 if ctx.thorough else 2)]
+    cases += [regraph_world(g, r) for _ in range(12 if ctx.thorough else 3)]
     rp = S.replay_script(ctx)
     if rp:
         base = [l for l in rp if not l.startswith(("hello", "dump"))]
@@ -146,7 +167,7 @@ def run(ctx):
     stats = {"worlds": 0, "hello_pairs": 0, "decisions_no_sync": 0, "decisions_sync": 0, "receiver_without_graph": 0,
              "multi_head_advertisers": 0, "multi_head_receivers": 0, "equal_head_sets": 0, "no_sync_via_equal_hello_head": 0,
              "no_sync_via_committed_address": 0, "addr_queries": 0, "addr_no_sync": 0, "f13_hits": 0, "max_heads": 0,
-             "advertisers_over_10_heads": 0, "receivers_holding_exactly_10_smallest_of_more": 0}
+             "advertisers_over_10_heads": 0, "regraph_worlds": 0, "receivers_holding_exactly_10_smallest_of_more": 0}
     known = 0
     for ci, case in enumerate(cases):
         lines = add_queries(r, case)
@@ -161,8 +182,9 @@ def run(ctx):
             t = op.split()
             if t[0] == "dump" and chunk:
                 dumps[int(t[1])] = S.parse_dump(chunk[0])
-            elif t[0] == "hello" and chunk:
+            elif t[0] == "hello" and chunk and dumps:        # hello ops inside the history (before the dumps) only warm caches
                 hellos.append((int(t[1]), int(t[2]), chunk[0]))
+        stats["regraph_worlds"] += 1 if case["kind"] == "regraph" else 0
         dag = S.Dag()
         prio = {}
         for d in dumps.values():
